@@ -2,6 +2,7 @@
 // bytecode on a hand-built segment, followed by what Pass::doAction and findNDoRule do around it.
 // usage: h_heap font.ttf
 #include "common.h"
+#include <algorithm>
 #include <graphite2/Font.h>
 #include <graphite2/Segment.h>
 #include "inc/Code.h"
@@ -110,6 +111,50 @@ int main(int argc, char **argv) {
                         for (int i = 0; i < n; ++i) { snprintf(buf, sizeof buf, "%sc:%d,%d", out.empty() ? "" : " ", seg->charinfo(i)->before(), seg->charinfo(i)->after()); out += buf; }
                     }
                 }
+                delete seg;
+            }
+        }
+        else if (w.size() >= 2 && w[0] == "lines") {
+            // lines <n> <op>... : gr_slot_linebreak_before / Segment::addLineEnd / delLineEnd on a hand-built segment
+            int n = atoi(w[1].c_str());
+            if (n < 1 || n > 60) out = "bad-op";
+            else {
+                Segment *seg = new Segment(n, face, 0, 0);
+                for (int i = 0; i < n; ++i) seg->appendSlot(i, 0x61 + i, 1 + i % 5, 0, i);
+                std::vector<Slot *> ids = stream(*seg, 1000);
+                std::vector<Slot *> sents;
+                bool fault = false, bad = false;
+                for (size_t k = 2; k < w.size() && !fault && !bad; ++k) {
+                    char c = w[k][0]; int v = atoi(w[k].c_str() + 1);
+                    Slot *sl = (v >= 0 && v < (int)ids.size()) ? ids[v] : 0;
+                    if (c == 'b') { if (sl) { if (!sl->prev()) fault = true; else gr_slot_linebreak_before(reinterpret_cast<gr_slot *>(sl)); } }
+                    else if (c == 'a') {
+                        if (!sl && !seg->last()) fault = true;
+                        else { Slot *e = seg->addLineEnd(sl); if (!e) fault = true; else { ids.push_back(e); sents.push_back(e); } }
+                    }
+                    else if (c == 'd') {
+                        if (v >= 0 && v < (int)sents.size() && sents[v]) {
+                            Slot *e = sents[v];
+                            if (!e->next() && !e->prev()) fault = true;
+                            else { seg->delLineEnd(e); sents[v] = 0; }
+                        }
+                    }
+                    else if (c == 'F') seg->first(sl);
+                    else if (c == 'L') seg->last(sl);
+                    else bad = true;
+                }
+                if (bad) out = "bad-op";
+                else if (fault || g_faults) out = "fault";
+                else {
+                    std::vector<std::pair<Slot *, int>> live;
+                    for (size_t k = 0; k < ids.size(); ++k)
+                        if ((int)k < n || std::find(sents.begin(), sents.end(), ids[k]) != sents.end()) live.push_back({ids[k], (int)k});
+                    auto idof = [&](const Slot *p) { if (!p) return -1; for (auto &q : live) if (q.first == p) return q.second; return -2; };
+                    snprintf(buf, sizeof buf, "first=%d last=%d", idof(seg->first()), idof(seg->last())); out = buf;
+                    for (auto &q : live) { snprintf(buf, sizeof buf, " %d:%d,%d", q.second, idof(q.first->next()), idof(q.first->prev())); out += buf; }
+                }
+                // the harness may have left the list cut or first/last redirected: free through the arena, not the list
+                seg->first(0); seg->last(0);
                 delete seg;
             }
         }
